@@ -2,7 +2,7 @@
    what they promise.  Statements only; proofs in Lemmas/Stats.v. *)
 From Coq Require Import List Reals QArith.
 From FDAV Require Import Base.Num Base.Vec Base.Quad Model.Stats
-  Lemmas.Vec Lemmas.Quad Lemmas.Gram Lemmas.Stats.
+  Lemmas.Vec Lemmas.Quad Lemmas.Gram Lemmas.Stats Lemmas.CovShift.
 Import ListNotations.
 Local Open Scope R_scope.
 
@@ -11,6 +11,11 @@ Theorem C10_center_mean_zero : forall m X, X <> [] -> Forall (fun r => length r 
   mean opsR m (center opsR m X) = zeros opsR m.
 Proof. exact center_mean_zero. Qed.
 Print Assumptions C10_center_mean_zero.
+(* centering removes any common level: curves shifted by the same function have the same centred curves *)
+Theorem C10_center_removes_level : forall m (c : list R) X, X <> [] -> length c = m -> Forall (fun r => length r = m) X ->
+  center opsR m (map (fun r => vadd opsR r c) X) = center opsR m X.
+Proof. exact center_shift. Qed.
+Print Assumptions C10_center_removes_level.
 Theorem C10_center_idempotent : forall m X, X <> [] -> Forall (fun r => length r = m) X ->
   center opsR m (center opsR m X) = center opsR m X.
 Proof. exact center_idempotent. Qed.
